@@ -70,6 +70,10 @@ type Bounded struct {
 }
 
 type Report struct {
+	// replay bookkeeping (parser replay harness runs once per package type)
+	replayTried map[string]bool
+	replayFound map[string][]string
+	replayCmd   map[string]string
 	Prop        *Property
 	Tier        string
 	Seed        int
